@@ -97,7 +97,10 @@ SenderUses ==     \* <<label, guard statements before the call, payout argument>
      <<"require-eq-rev", <<ExprStmt(CallNamed("require", <<Bin("E.Equal", Owner, MsgSender), Str("no")>>))>>, Payable(Owner)>>,
      <<"check-call", <<ExprStmt(CallNamed("check", <<MsgSender>>))>>, Payable(Owner)>>,
      <<"if-revert", <<N("S.If", A0, <<<<Bin("E.NotEqual", MsgSender, Owner)>>, <<N("S.Revert", [error |-> ""], <<<<>>>>)>>, <<>>>>)>>, Payable(Owner)>>,
-     <<"check-in-payout", <<>>, CallNamed("pick", <<MsgSender>>)>>}
+     <<"check-in-payout", <<>>, CallNamed("pick", <<MsgSender>>)>>,
+     \* other calls of the function whose arguments are member accesses on something that is not an identifier path
+     <<"transfer-balance", <<ExprStmt(Call(Member(Owner, "transfer"), <<Member(AddrOf(This), "balance")>>))>>, Payable(Owner)>>,
+     <<"call-result-member", <<ExprStmt(CallNamed("log", <<Member(CallNamed("config", <<>>), "addr"), Member(Index(Var("admins"), Num("0")), "addr")>>))>>, Payable(Owner)>>}
 ModifierSets == {<<"none", <<>>, <<>>>>, <<"onlyOwner", <<ModAttr("onlyOwner", 0 - 1)>>, <<>>>>,
                  <<"onlyRole", <<ModAttr("onlyRole", 1)>>, <<Var("ADMIN")>>>>,
                  <<"auth", <<ModAttr("auth", 0 - 1)>>, <<>>>>, <<"nonReentrant", <<ModAttr("nonReentrant", 0 - 1)>>, <<>>>>,
@@ -130,7 +133,9 @@ RhsClasses == {<<"literal", Num("7")>>, <<"variable", Var("initial")>>, <<"strin
 ImmTypes == {<<"uint256", U256>>, <<"address", Ty("address", 0)>>, <<"bool", Ty("bool", 0)>>, <<"bytes32", Ty("bytesN", 32)>>,
              <<"string", Ty("string", 0)>>, <<"bytes", Ty("bytes", 0)>>}
 Elsewhere == {"none", "function", "modifier", "fallback", "compound-in-function", "incr-in-function"}
-ImmFile(ty, inCtor, rhs, elsewhere, writerFirst) ==
+\* (pragma = "" : the usual header)
+ImmWrap(contract, pragma) == IF pragma = "" THEN InFile(<<contract>>) ELSE N("SU.SourceUnit", A0, <<<<PragmaOf("solidity", pragma), contract>>>>)
+ImmFileP(ty, inCtor, rhs, elsewhere, writerFirst, pragma) ==
     LET target == Var("cand")
         ctorBody == IF inCtor THEN <<ExprStmt(Bin("E.Assign", target, rhs))>> ELSE <<ExprStmt(Bin("E.Assign", Var("other"), Num("1")))>>
         other == CASE elsewhere = "none" -> <<>>
@@ -139,16 +144,20 @@ ImmFile(ty, inCtor, rhs, elsewhere, writerFirst) ==
                    [] elsewhere = "fallback" -> <<FnDecl("fallback", "", VisAttr("external") \o MutAttr("payable"), NoParams, <<>>, TRUE, <<ExprStmt(Bin("E.Assign", target, rhs))>>)>>
                    [] elsewhere = "compound-in-function" -> <<FnDecl("function", "bump", VisAttr("public") \o MutAttr("payable"), NoParams, <<>>, TRUE, <<ExprStmt(Bin("E.AssignAdd", target, Num("1")))>>)>>
                    [] elsewhere = "incr-in-function" -> <<FnDecl("function", "inc", VisAttr("public") \o MutAttr("payable"), NoParams, <<>>, TRUE, <<ExprStmt(Un("E.PreIncrement", target))>>)>>
-    IN InFile(<<N("SUP.ContractDefinition", [cty |-> "contract", name |-> "Imm", bases |-> <<>>],
+    IN ImmWrap(N("SUP.ContractDefinition", [cty |-> "contract", name |-> "Imm", bases |-> <<>>],
                   <<<<>>, LET ctor == <<FnDecl("constructor", "", <<>>, <<<<[present |-> TRUE, storage |-> "", name |-> "initial"]>>, <<U256>>>>, <<>>, TRUE, ctorBody)>>
                           IN <<StateVar("cand", ty, <<>>, <<>>), StateVar("other", U256, <<>>, <<>>)>>
-                             \o (IF writerFirst THEN other \o ctor ELSE ctor \o other)>>)>>)
+                             \o (IF writerFirst THEN other \o ctor ELSE ctor \o other)>>), pragma)
+ImmFile(ty, inCtor, rhs, elsewhere, writerFirst) == ImmFileP(ty, inCtor, rhs, elsewhere, writerFirst, "")
 ImmFiles ==
     {I("imm:" \o x[1][1] \o (IF x[2] THEN ":ctor:" ELSE ":noctor:") \o x[3][1] \o ":" \o x[4], "SU", ImmFile(x[1][2], x[2], x[3][2], x[4], FALSE))
        : x \in ImmTypes \X BOOLEAN \X RhsClasses \X Elsewhere}
     \* the other writer declared BEFORE the constructor (the order of the members must not matter)
     \cup {I("imm:" \o x[1][1] \o ":ctor:" \o x[2][1] \o ":" \o x[3] \o ":writer-first", "SU", ImmFile(x[1][2], TRUE, x[2][2], x[3], TRUE))
            : x \in {y \in ImmTypes : y[1] \in {"uint256", "address", "bytes32"}} \X {y \in RhsClasses : y[1] \in {"literal", "variable"}} \X (Elsewhere \ {"none"})}
+    \* the suggestion does not depend on the compiler version the file asks for, however it is spelled
+    \cup {I("imm:" \o x[1][1] \o ":ctor:literal:" \o x[2] \o ":pragma:" \o x[3], "SU", ImmFileP(x[1][2], TRUE, Num("7"), x[2], FALSE, x[3]))
+           : x \in {y \in ImmTypes : y[1] \in {"uint256", "address"}} \X {"none", "function"} \X {"^0.6.0", "^0.8", ">=0.7 <0.9", ">=0.4.22 <0.6.0", "0.5.17"}}
     \* assigned outside any constructor while some contract has an unrelated constructor
     \cup {I("imm:assigned-in-initializer", "SU",
             InFile(<<N("SUP.ContractDefinition", [cty |-> "contract", name |-> "Imm2", bases |-> <<>>],
